@@ -296,6 +296,8 @@ func runC12(p *core.Program, r *core.Report) {
 	r.Floor("R12.1", 3)
 	positionRules(p, r, "R12.3")
 	escapeRules(p, r)
+	decodedStringRule(p, r)
+	sourceUnmodifiedRule(p, r, "R12.3")
 }
 
 func c12Controls() []core.Mutant {
@@ -310,6 +312,8 @@ func c12Controls() []core.Mutant {
 		{Name: "\\n decoded to carriage return", File: "parser/lexer/utils.go", Old: "\tcase 'n':\n\t\tvalue = '\\n'", New: "\tcase 'n':\n\t\tvalue = '\\r'", Rule: "R12.2", Construct: "escape \\n"},
 		{Name: "\\u with two digits in the decoder", File: "parser/lexer/utils.go", Old: "\t\tcase 'u':\n\t\t\tn = 4", New: "\t\tcase 'u':\n\t\t\tn = 2", Rule: "R12.2", Construct: "numeric escape \\u"},
 		{Name: "unknown escapes pass through", File: "parser/lexer/utils.go", Old: "\tdefault:\n\t\terr = fmt.Errorf(\"unable to unescape string\")\n\t}\n\n\ttail = s", New: "\tdefault:\n\t\tvalue = rune(c)\n\t}\n\n\ttail = s", Rule: "R12.2", Construct: "unknown escapes"},
+		{Name: "newlines normalised after escape decoding", File: "parser/lexer/utils.go", Old: "\treturn string(buf), nil\n}", New: "\treturn newlineNormalizer.Replace(string(buf)), nil\n}", Rule: "R12.2", Construct: "returns the decoded buffer untransformed"},
+		{Name: "Parse trims the input before lexing", File: "parser/parser.go", Old: "\tsource := file.NewSource(input)\n", New: "\tsource := file.NewSource(strings.TrimSpace(input))\n", Rule: "R12.3", Construct: "source text reaches the lexer unmodified"},
 		{Name: "hex parsed in base 10", File: "parser/parser.go", Old: "number, err := strconv.ParseInt(value, 0, 64)", New: "number, err := strconv.ParseInt(value, 10, 64)", Rule: "R12.1", Construct: "hexadecimal"},
 	}
 }
